@@ -5,7 +5,7 @@ set -u
 cd "$(dirname "$0")"
 mkdir -p build/run evidence replays coq/Gen
 REPO="${VERIF_REPO:-/repo}"
-for g in gen.py gen_deps.py gen_files.py gen_units.py; do /venv/bin/python tools/translate/$g "$REPO" coq/Gen || echo "setup: generator $g failed (checks will report it)"; done
+for g in gen.py gen_deps.py gen_files.py gen_units.py gen_pumps.py; do /venv/bin/python tools/translate/$g "$REPO" coq/Gen || echo "setup: generator $g failed (checks will report it)"; done
 cd coq
 (cat _CoqProject.base; ls Num/*.v Gen/*.v Models/*.v Lemmas/*.v Props/*.v 2>/dev/null) > _CoqProject
 coq_makefile -f _CoqProject -o Makefile > /dev/null
